@@ -355,7 +355,9 @@ def nested_viewport(H):
     innermost = _el("svg", {"width": "7"}, [_el("path", {"d": "M9,9"})])
     k2 = _el("g", {}, [innermost])  # an svg nested in the nested svg, not a direct child
     attrib.update({"fill": "red", "opacity": "0.5", "display": "inline", "stroke-width": "3"})  # presentation attributes of the nested svg
-    inner = _el("svg", attrib, [k1, k2])
+    grad_attrib = {"id": "ug", "gradientUnits": "userSpaceOnUse", "x1": "10%", "x2": "90%", "y2": "50%"}
+    k3 = _el("linearGradient", dict(grad_attrib), [_el("stop", {"offset": "0"})])  # percentages refer to the viewport of whoever USES the gradient
+    inner = _el("svg", attrib, [k1, k2, k3])
     root = _el("svg", {}, [inner, _el("clipPath", {"id": "nested-svg-viewport-0"})])
     svg = SVG(root)
     V = Affine2D(*H.reals("v", 6))
@@ -395,9 +397,11 @@ def nested_viewport(H):
     if not ok:
         return
     g = res[-1] if not clipped else (list(res[1]) or [None])[0]
-    H.prove(g is not None and local(g) == "g" and list(g) == [k1, k2] and len(inner) == 0, "nested.children_move_into_the_group_in_order")
+    H.prove(g is not None and g.tag == SVGNS + "g" and list(g) == [k1, k2, k3] and len(inner) == 0, "nested.children_move_into_an_svg_group_in_order", detail=repr(getattr(g, "tag", None)))
     if g is None:
         return
+    H.prove(dict(k3.attrib) == grad_attrib, "nested.gradients_defined_inside_are_not_rewritten", detail=str(dict(k3.attrib)))
+    H.prove(all(c.tag.startswith(SVGNS) for c in [g] + ([res[0], res[1]] if clipped else [])), "nested.every_new_element_is_in_the_svg_namespace")
     # an svg element establishes a viewport AND carries presentation attributes for its content, like a group does
     holder_chain = [g] + ([res[1]] if clipped else [])
     carried = {k: next((h.attrib[k] for h in holder_chain if k in h.attrib), None) for k in ("fill", "opacity", "display", "stroke-width")}
@@ -682,6 +686,10 @@ def viewbox_clip(H):
     kids = [k for k in root.iterdescendants() if local(k) in ("rect", "path") and k is not neighbour and k.attrib.get("d") != "M0,0"]
     if where == "outside":
         H.prove(not kids and not inter, "viewbox.shape_outside_is_removed", detail=str([local(k) for k in root.iterdescendants()]))
+        # the opacity group is left with one child: it must not survive as a one-child group (the pico grammar), its opacity goes to the child
+        top = [k for k in root if isinstance(k.tag, str)]
+        ok = len(top) == 1 and local(top[0]) == "path" and top[0].attrib.get("opacity") == "0.5"
+        H.prove(ok, "viewbox.group_left_with_one_child_is_dissolved_and_hands_its_opacity_down", detail=str([(local(k), dict(k.attrib)) for k in root.iterdescendants()]))
         return
     if where == "inside":
         ok = not inter and len(kids) == 1 and local(kids[0]) == "rect" and kids[0].getparent() is holder
@@ -803,3 +811,70 @@ def nested_siblings(H):
             ra = list(mine[0])[0].attrib
             val = lambda n: float(ra[n]) if n in ra else 0.0
             H.prove((val("x"), val("y"), val("width"), val("height")) == (x, y, w, h), "nested.own_clipPath_is_the_own_viewport", detail=str(dict(ra)))
+
+
+
+@obligation(("C08", "C02"), "use.ids", functions=["svg.SVG._resolve_use"])
+def use_ids(H):
+    """Instantiating a <use> never duplicates an id: EVERY element of the copy loses its id - shapes, groups and gradients
+    alike (a gradient that lives inside the target would otherwise exist twice under one id, and whatever resolves
+    url(#id) afterwards finds two elements, or none once both are swept)."""
+    if H.mode == "concrete":
+        doc = ('<svg xmlns="http://www.w3.org/2000/svg" xmlns:xlink="http://www.w3.org/1999/xlink" viewBox="0 0 9 9"><defs><linearGradient id="base"><stop offset="0" stop-color="red"/></linearGradient>'
+               '<g id="t"><linearGradient id="shine" xlink:href="#base"/><rect id="r" width="2" height="2" fill="url(#shine)"/></g></defs><use xlink:href="#t"/><use xlink:href="#t" x="3"/></svg>')
+        out = SVG.fromstring(doc).resolve_use()
+        ids = [e.attrib["id"] for e in out.svg_root.iter() if "id" in e.attrib]
+        H.prove(len(ids) == len(set(ids)), "use.no_id_occurs_twice_after_instantiation", detail=str(ids))
+        return
+    fake_tree.install(H)
+    fake_tree.install_xpath(H, SVG)
+    _install_transform_tokens(H)
+    placed = H.case("use_has_xy", (False, True))
+    tpl = _el("g", {"id": "t"}, [_el("linearGradient", {"id": "shine", XLINK: "#base"}), _el("rect", {"id": "r", "width": "2", "height": "2", "fill": "url(#shine)"}), _el("g", {"id": "inner"}, [_el("path", {"id": "p", "d": "M0,0"})])])
+    base = _el("linearGradient", {"id": "base"}, [_el("stop", {"offset": "0", "id": "s0"})])
+    u1 = _el("use", dict({XLINK: "#t"}, **({"x": "3", "y": "4"} if placed else {})))
+    u2 = _el("use", {XLINK: "#t"})
+    root = _el("svg", {}, [_el("defs", {}, [base, tpl]), u1, u2])
+    svg = SVG(root)
+    _, e = H.catch(SVG._resolve_use, svg, root)
+    H.prove(e is None, "use.no_exception", detail=repr(e))
+    if e is not None:
+        return
+    ids = [k.attrib["id"] for k in root.iterdescendants() if "id" in k.attrib]
+    H.prove(sorted(ids) == sorted(["base", "s0", "t", "shine", "r", "inner", "p"]), "use.no_id_occurs_twice_after_instantiation", detail=str(ids))
+    H.prove(not any(local(k) == "use" for k in root.iterdescendants()), "use.every_use_is_instantiated")
+    H.prove(sum(1 for k in root.iterdescendants() if local(k) == "rect") == 3 and sum(1 for k in root.iterdescendants() if local(k) == "linearGradient") == 4, "use.whole_subtree_is_copied_each_time")
+
+
+@obligation(("C19", "C15", "C02", "C06"), "state.viewbox_is_read_from_the_tree", functions=["svg.SVG.view_box", "svg.SVG.set_attributes", "svg.SVG.remove_attributes"])
+def viewbox_fresh(H):
+    """view_box() answers for the root element AS IT IS NOW: after the viewBox (or width / height) was changed in place - by
+    set_attributes, remove_attributes or directly on the element - the next answer is the new rectangle (a remembered answer
+    would make clip_to_viewbox, nested svg sizing and gradient percentages work on a canvas the document no longer has)."""
+    from picosvg.geometric_types import Rect
+
+    how = H.case("changed_by", ("set_attributes", "remove_attributes", "direct edit"))
+    if H.mode == "sym":
+        fake_tree.install(H)
+        fake_tree.install_xpath(H, SVG)
+        root = _el("svg", {"viewBox": "0 0 100 100", "width": "30", "height": "40"}, [_el("rect", {"width": "1", "height": "1"})])
+        svg = SVG(root)
+        H.override(SVG.xpath, lambda I, self_, q, el=None, expected_result_range=None: [self_.svg_root] if q in ("/svg:svg", "/svg:svg[1]") else [])
+    else:
+        svg = SVG.fromstring('<svg xmlns="http://www.w3.org/2000/svg" viewBox="0 0 100 100" width="30" height="40"><rect width="1" height="1"/></svg>')
+        root = svg.svg_root
+    first = H.call(SVG.view_box, svg)
+    H.prove(first == Rect(0, 0, 100, 100), "viewbox.first_answer")
+    H.call(getattr(type(svg), "tolerance").fget, svg)  # everything that reads the view box on the way
+    if how == "set_attributes":
+        _, e = H.catch(SVG.set_attributes, svg, (("viewBox", "20 30 50 40"),), inplace=True)
+        want = Rect(20, 30, 50, 40)
+    elif how == "remove_attributes":
+        _, e = H.catch(SVG.remove_attributes, svg, ("viewBox",), inplace=True)
+        want = Rect(0, 0, 30, 40)
+    else:
+        svg.svg_root.attrib["viewBox"] = "1 2 3 4"
+        e, want = None, Rect(1, 2, 3, 4)
+    H.prove(e is None, "viewbox.edit_succeeds", detail=repr(e))
+    got = H.call(SVG.view_box, svg)
+    H.prove(got == want, "viewbox.answer_follows_the_tree", detail=f"{got} vs {want}")
